@@ -55,6 +55,14 @@ KUNITS = {
     ],
 }
 
+import json as _json, os as _os
+_KERN = _json.load(open(_os.path.join(_os.path.dirname(_os.path.abspath(__file__)), 'hooks', 'kern_harnesses.json')))
+KUNITS['K-KERN'] = [H(k['name'], False,
+                      bound='concrete lengths %s%s; symbolic contents and index; offsets {0,1,7}' % (k['lens'], (', scalar ' + str(k['scalar'])) if k['scalar'] else ''),
+                      refusal=bool(k.get('refusal')), tier=k['tier'], covers=False, timeout='30m',
+                      functions=['src/octets.rs ' + k['kernel']]) for k in _KERN]
+KJOBS['K-KERN'] = 16
+
 # Verus gives no counterexample: these Kani harnesses of the same contract are run only after a Verus obligation failed
 WITNESS = {
     'V-RNG': [H('rng::verif_hooks::kani_rng::rand_xor_value_matches_rfc', True, timeout='10m')],
